@@ -42,13 +42,14 @@ def negotiation_stims(seed, tier, mc):
         comp = reqname if reqname in ('gzip', 'deflate', 'zstd') else ''
         wellformed = r['flag'] == 0 or comp != ''
         shape = ['unary', 'sstream'][len(stims) % 2]
+        msg = [[1, 2, 3], [], [0] * 40][(len(stims) // 2) % 3]
         stims.append({'mode': 'raw', 'class': 'negotiation_' + r['class'], 'transport': 'inproc', 'shape': shape,
                       'server': {'send': r['send'], 'accept': r['accept'], 'max_dec': -1, 'max_enc': -1},
                       'client': {'send': '', 'accept': [], 'max_dec': -1, 'max_enc': -1},
-                      'req': {'meta': [], 'msgs': [[1, 2, 3]]},
+                      'req': {'meta': [], 'msgs': [msg]},
                       'script': {'init_meta': [], 'msgs': [[9] * 40] if shape == 'unary' else [[9] * 40, [], [7]], 'end': {'ok': True}, 'fail_before': False, 'no_compress': False},
                       'raw': {'method': 'POST', 'version': 'HTTP/2.0', 'uri': '/p.q.Svc/Unary' if shape == 'unary' else '/p.q.Svc/SStream',
-                              'headers': headers, 'msg': [1, 2, 3], 'flag': r['flag'], 'comp': comp, 'wellformed': wellformed},
+                              'headers': headers, 'msg': msg, 'flag': r['flag'], 'comp': comp, 'wellformed': wellformed},
                       'table': r})
     return stims
 
@@ -89,6 +90,16 @@ def check(prop, tier, seed):
         fams.append(('client_negotiation', client_negotiation_stims(seed, tier)))
     if prop == 'C08':
         fams.append(('calls2', simple.gen('call', seed + 77, tier, tag)))
+    if prop == 'C05':
+        # the frame-level clauses of C05 (flag without negotiated encoding => INTERNAL) on the decoder itself,
+        # driven by the behaviours of the decoder Mechanism model (includes empty and short flagged frames)
+        from . import p_framing
+        stims = p_framing.dec_scripts(seed, tier, mc)
+        ev, path = p_framing._run_lab('tlc_dec', stims, tag)
+        res = core.tlc_trace('Trace_Framing', path, name='C05_tlc_dec')
+        core.judge_trace(verdict, res, ev, prop_filter=lambda c: c in ('FlagWithoutEncodingIsInternal', 'AcceptedIffWithinLimit', 'NoSilentFailure', 'OnlyFramedMessages'), label='tlc_dec')
+        cov['traces_validated_against_impl'] += res['stats'].get('runs', 0)
+        cov.setdefault('trace_stats', {})['tlc_dec'] = res['stats']
     for label, stims in fams:
         ev, path = simple.run_lab('call', stims, tag, label, annotate=decomp.annotate)
         simple.validate(prop, 'Trace_Call', verdict, ev, path, label, cov, clause_filter=clause_filter(prop), harness_clauses=HARNESS)
